@@ -1,6 +1,7 @@
 package main
 
 import (
+	"strconv"
 	"go/parser"
 	"fmt"
 	"go/ast"
@@ -251,6 +252,7 @@ func (c *FuncCtx) havoc(st *State, as *assignedSet, tag string) {
 		}
 		hs["H.uint64"] = true
 		c.havocGhosts(st, nil)
+		c.bumpRefTop(st)
 	}
 	var hn []string
 	for h := range hs {
@@ -616,6 +618,10 @@ func (c *FuncCtx) evalArrIndex(st *State, a ArrV, i *Term) Value {
 // elemOf: element i of a slice of pointers-to-struct / structs: a symbolic object named after
 // the slice and the index term (immutable view).
 func (c *FuncCtx) elemOf(st *State, s SliceV, i *Term) Value {
+	if rt, ok := extRefType(s.Elem); ok {
+		// a slice of pointers to external objects holds their identities
+		return RefV{ID: Select(c.heap(st, heapName(s.Elem)), Add(s.Addr, i)), T: rt}
+	}
 	et := s.Elem
 	if p, ok := et.Underlying().(*types.Pointer); ok {
 		et = p.Elem()
@@ -723,7 +729,9 @@ func (c *FuncCtx) evalCall(st *State, n *ast.CallExpr) []Value {
 		}
 		var recv Value
 		if recvExpr != nil {
-			if fi.Decl == nil {
+			if _, isRef := extRefType(c.typeOf(recvExpr)); isRef && fi.Decl == nil {
+				recv = c.eval(st, recvExpr)
+			} else if fi.Decl == nil {
 				// external receiver (an interface value, a package-level variable): opaque
 				recv = OpaqueV{Desc: exprString(recvExpr), T: c.typeOf(recvExpr)}
 			} else {
@@ -747,10 +755,23 @@ func (c *FuncCtx) evalCall(st *State, n *ast.CallExpr) []Value {
 			for i := 0; i < sig.Params().Len() && i < len(args); i++ {
 				bind[sig.Params().At(i).Name()] = args[i]
 			}
+			site := c.fnCallSite(o, n)
 			for i, raw := range c.con.Raw["fnparam"] {
-				// fnparam <name> requires <expr over the parameter names of the function type>
+				// fnparam <name>[#<k>] requires <expr over the parameter names of the function type>
+				// (#k: only the k-th call of that parameter in source order)
 				f := strings.Fields(raw)
-				if len(f) < 3 || f[0] != o.Name() || f[1] != "requires" {
+				if len(f) < 3 || f[1] != "requires" {
+					continue
+				}
+				nm, only := f[0], -1
+				if j := strings.Index(nm, "#"); j >= 0 {
+					k, err := strconv.Atoi(nm[j+1:])
+					if err != nil {
+						panic(verr("%s: bad fnparam clause %q", c.con.File, raw))
+					}
+					nm, only = nm[:j], k
+				}
+				if nm != o.Name() || (only >= 0 && only != site) {
 					continue
 				}
 				x, err := parser.ParseExpr(strings.TrimSpace(strings.SplitN(raw, "requires", 2)[1]))
@@ -806,6 +827,10 @@ func (c *FuncCtx) evalConversion(st *State, n *ast.CallExpr, to types.Type) Valu
 	kt, ok := intKindOf(to)
 	if !ok {
 		panic(verr("unsupported conversion to %s at %s", to, c.prog.pos(n)))
+	}
+	if isFloatType(from) {
+		// float to integer: not modelled, any value of the target type
+		return IntV{c.freshInt(st, c.freshName("fconv"), to)}
 	}
 	if _, ok := intKindOf(from); !ok {
 		panic(verr("unsupported conversion from %s at %s", from, c.prog.pos(n)))
@@ -878,6 +903,13 @@ func (c *FuncCtx) evalBuiltin(st *State, n *ast.CallExpr, name string) []Value {
 			Eq(Select(nh, p), Ite(in, Select(h, Add(Sub(p, dst.Addr), src.Addr)), Select(h, p)))))
 		st.heaps[hn] = nh
 		return []Value{IntV{cnt}}
+	case "new":
+		if et, ok := extRefType(c.typeOf(n)); ok {
+			r := c.allocRef(st, et, "new")
+			c.setRefVal(st, r, ConstI(0))
+			return []Value{r}
+		}
+		panic(verr("unsupported new(%s) at %s", exprString(n.Args[0]), c.prog.pos(n)))
 	case "make":
 		t := c.typeOf(n)
 		sl, ok := t.Underlying().(*types.Slice)
@@ -1000,7 +1032,12 @@ func (c *FuncCtx) callContract(st *State, con *Contract, fi *FuncInfo, recv Valu
 	sig := fi.Obj.Type().(*types.Signature)
 	short := strings.TrimPrefix(fi.Key, fi.Pkg.PkgPath+".")
 	bind := map[string]Value{}
-	if rn := recvName(fi.Decl); rn != "" && recv != nil {
+	if fi.Decl == nil {
+		// a method under an assumed `ext:` contract: the receiver is named as in its declaration
+		if r := sig.Recv(); r != nil && r.Name() != "" && recv != nil {
+			bind[r.Name()] = recv
+		}
+	} else if rn := recvName(fi.Decl); rn != "" && recv != nil {
 		bind[rn] = recv
 	}
 	if sig.Variadic() {
@@ -1077,6 +1114,9 @@ func (c *FuncCtx) callContract(st *State, con *Contract, fi *FuncInfo, recv Valu
 		} else if !hasAssigns && (!con.Trusted || len(con.Raw["pure"]) == 0) {
 			c.havocGhosts(st, nil)
 		}
+		if !hasAssigns && (!con.Trusted || len(con.Raw["pure"]) == 0) {
+			c.bumpRefTop(st)
+		}
 	}
 	// results
 	var res []Value
@@ -1095,6 +1135,57 @@ func (c *FuncCtx) callContract(st *State, con *Contract, fi *FuncInfo, recv Valu
 	}
 	if len(res) == 1 {
 		b2["result"] = res[0]
+	}
+	// refnew <result name>: that result is a newly allocated external object
+	for _, raw := range con.Raw["refnew"] {
+		for _, nm := range strings.Fields(strings.ReplaceAll(raw, ",", " ")) {
+			old, ok := b2[nm].(RefV)
+			if !ok {
+				panic(verr("%s: refnew %s: not a pointer to an external object", con.File, nm))
+			}
+			nr := c.allocRef(st, old.T, short)
+			for k, v := range b2 {
+				if rv, ok := v.(RefV); ok && rv.ID == old.ID {
+					b2[k] = nr
+				}
+			}
+			for i, v := range res {
+				if rv, ok := v.(RefV); ok && rv.ID == old.ID {
+					res[i] = nr
+				}
+			}
+		}
+	}
+	// refset <x> = <expr over the values before the call> | *: the ghost value of the object x points to
+	for _, raw := range con.Raw["refset"] {
+		kv := strings.SplitN(raw, "=", 2)
+		if len(kv) != 2 {
+			panic(verr("%s: refset expects: x = expr | *", con.File))
+		}
+		tx, err := parser.ParseExpr(strings.TrimSpace(kv[0]))
+		if err != nil {
+			panic(verr("%s: bad refset clause %q", con.File, raw))
+		}
+		var facts []*Term
+		tenv := mkEnv(st, pre, &facts, b2)
+		target, ok := tenv.Eval(tx).(RefV)
+		if !ok {
+			panic(verr("%s: refset %s: not a pointer to an external object", con.File, exprString(tx)))
+		}
+		var val *Term
+		if strings.TrimSpace(kv[1]) == "*" {
+			val = Var(c.freshName("refval"), SInt)
+		} else {
+			vx, err := parser.ParseExpr(strings.TrimSpace(kv[1]))
+			if err != nil {
+				panic(verr("%s: bad refset clause %q", con.File, raw))
+			}
+			val = mkEnv(pre, pre, &facts, b2).Int(vx)
+		}
+		for _, f := range facts {
+			st.assume(f)
+		}
+		c.setRefVal(st, target, val)
 	}
 	evws := c.views(con, fi.Pkg.PkgPath, func(facts *[]*Term) *SpecEnv {
 		env := mkEnv(st, pre, facts, b2)
@@ -1900,4 +1991,23 @@ func (c *FuncCtx) localNamed(name string) bool {
 		}
 	}
 	return true
+}
+
+// fnCallSite: the ordinal, in source order, of this call among the calls of the function-typed parameter o.
+func (c *FuncCtx) fnCallSite(o types.Object, at *ast.CallExpr) int {
+	k, res := 0, -1
+	ast.Inspect(c.fi.Decl.Body, func(n ast.Node) bool {
+		call, ok := n.(*ast.CallExpr)
+		if !ok {
+			return true
+		}
+		if id, ok := call.Fun.(*ast.Ident); ok && c.info.Uses[id] == o {
+			if call == at {
+				res = k
+			}
+			k++
+		}
+		return true
+	})
+	return res
 }
